@@ -139,6 +139,17 @@ CHECKS = {
         "REF/ALT clause skipped at sites where the database's own reference allele is inconsistent (toy gene).",
         "DESIGN.md 5/C12",
     ),
+    "C13": (
+        "metamorphic testing: the same RefSeq-level evidence transported to hg19 and hg38 (and to opposite strands of generated dual-build databases); simulated alignments per build",
+        "Evidence is generated once in RefSeq terms (noise keyed by each variant's RefSeq notation, region depths keyed by region name) for "
+        "planted alleles chosen by name and transported to both builds of any shipped database or of a generated database whose builds use "
+        "opposite strands / different offsets / alignment gaps; solve_cn_model, estimate_major and estimate_minor results must be equal in "
+        "RefSeq terms (structures, alleles, novel / added / lost variants, scores). Alignment layer: a planted sample simulated against each "
+        "build and genotyped with genotype(): same structures, alleles, variants and diplotypes. A recorded finding (solver pick among "
+        "equal-score optima depends on coordinates) is matched only for exact equal-score redistributions.",
+        "Solver scores at 1e-4, minor scores at 2e-3; alignment layer does not compare scores.",
+        "DESIGN.md 5/C13",
+    ),
     "C14": (
         "stateful testing: Hypothesis RuleBasedStateMachine over operation histories with an invariant after every step; subprocess hash-seed sweep; subset/order metamorphic relation for the minor stage",
         "A rule-based state machine draws a fixture (two generated genes in one BAM, a gene without reads, a profile BAM) and up to 6 operations "
